@@ -270,11 +270,13 @@ func (s *spamSpec) classify(name string, event []byte, meta map[string]string) c
 
 type refSrc struct {
 	worlds       []int
-	T            int // threshold of this source (single-threshold families)
-	mixed        bool
-	hasLast      bool
-	lastNs       int64
-	silentRounds int // maintenance rounds since the last record that may have been counted
+	curT         map[int]bool // thresholds of the records seen since the previous maintenance round
+	prevT        map[int]bool // the last non-empty such set
+	allT         map[int]bool // every threshold a record of this source ever had
+	hasSeen      bool         // a record certainly seen by the antispam exists
+	seenNs       int64        // its event time
+	maybeNs      []int64      // event times of later records that may or may not have moved the source's time
+	silentRounds int          // maintenance rounds since the last record that may have been counted
 	everSpam     bool
 }
 
@@ -304,14 +306,23 @@ func normWorlds(w []int) []int {
 	return out
 }
 
-// one documented step of the counter for a counted record
-func stepCounted(c, T, U int) option {
-	c1 := c + 1
-	o := option{spam: c1 >= T, next: c1}
-	if c < T && c1 >= T {
-		o.next = U * T // the ban is set
+// the documented steps of the counter for a counted record: the counter is
+// incremented; at or over the threshold the record is spam and the counter
+// is "set to unbanIterations * threshold" - certainly when the threshold is
+// crossed, and (one reading of the sentence) again on any later record that
+// finds the source banned.
+func stepCounted(c, T, U int, counted bool) []option {
+	c1 := c
+	if counted {
+		c1 = c + 1
 	}
-	return o
+	if c1 < T {
+		return []option{{spam: false, next: c1}}
+	}
+	if counted && c < T {
+		return []option{{spam: true, next: U * T}} // the ban is set
+	}
+	return []option{{spam: true, next: c1}, {spam: true, next: U * T}}
 }
 
 type pending struct {
@@ -324,41 +335,42 @@ type pending struct {
 	isNew    bool
 	maySkip  bool
 	silentAt int
+	tNs      int64
 }
 
 // prepare computes what the documents allow for one record of source id.
 // maySkip: the antispam may not get to see this record at all.
 func (m *refSpam) prepare(id, name string, isNew bool, event []byte, tNs int64, meta map[string]string, maySkip bool) *pending {
 	cl := m.spec.classify(name, event, meta)
-	p := &pending{m: m, id: id, cl: cl, isNew: isNew, maySkip: maySkip}
+	p := &pending{m: m, id: id, cl: cl, isNew: isNew, maySkip: maySkip, tNs: tNs}
 	if cl.cls != clsCounted {
 		return p
 	}
 	s := m.src[id]
 	if s == nil {
-		s = &refSrc{worlds: []int{0}, T: cl.T}
+		s = &refSrc{worlds: []int{0}, curT: map[int]bool{}, prevT: map[int]bool{}, allT: map[int]bool{}}
 		m.src[id] = s
-	}
-	if s.T != cl.T {
-		s.mixed = true
 	}
 	p.s = s
 	p.silentAt = s.silentRounds
-	gap := int64(0)
-	if s.hasLast {
-		gap = tNs - s.lastNs
+	near := func(ref int64) bool {
+		gap := tNs - ref
 		if gap < 0 {
 			gap = -gap
 		}
+		return gap < m.intervalNs
 	}
-	p.certain = !s.hasLast || gap < m.intervalNs
+	p.certain = !s.hasSeen || near(s.seenNs)
+	for _, t := range s.maybeNs {
+		p.certain = p.certain && near(t)
+	}
 	U := m.spec.Unban
 	p.opts = map[int][]option{}
 	for _, c := range s.worlds {
 		var os []option
-		os = append(os, stepCounted(c, cl.T, U))
+		os = append(os, stepCounted(c, cl.T, U, true)...)
 		if !p.certain {
-			os = append(os, option{spam: c >= cl.T, next: c})
+			os = append(os, stepCounted(c, cl.T, U, false)...)
 		}
 		if isNew {
 			os = append(os, option{spam: false, next: 0})
@@ -369,6 +381,16 @@ func (m *refSpam) prepare(id, name string, isNew bool, event []byte, tNs int64, 
 		p.opts[c] = os
 	}
 	return p
+}
+
+// severalThresholds: records of this source fall under more than one threshold
+// (rules on the record text). The documents do not say how one counter serves
+// two thresholds, so only "refused too early" is judged for such a source.
+func (p *pending) severalThresholds() bool {
+	if p.s == nil {
+		return false
+	}
+	return len(p.s.allT) > 1 || (len(p.s.allT) == 1 && !p.s.allT[p.cl.T])
 }
 
 // allowed reports whether the documents allow the answer.
@@ -427,42 +449,57 @@ func (p *pending) finish(w []int, spam bool) {
 	if spam {
 		s.everSpam = true
 	}
-}
-
-// touch updates the event-time bookkeeping (call once per record that reached
-// or may have reached the antispam).
-func (p *pending) touch(tNs int64) {
-	if p.s != nil {
-		p.s.hasLast = true
-		p.s.lastNs = tNs
+	s.curT[p.cl.T] = true
+	s.allT[p.cl.T] = true
+	if (p.maySkip || p.isNew) && !spam {
+		// a record that was perhaps not seen, or a "new source" record, may or
+		// may not have moved the source's event time
+		s.maybeNs = append(s.maybeNs, p.tNs)
+	} else {
+		s.hasSeen, s.seenNs = true, p.tNs
+		s.maybeNs = s.maybeNs[:0]
 	}
 }
 
-// maintenance applies one documented maintenance round to every source.
+// maintenance applies one documented maintenance round to every source:
+// "the counter value is decremented by the threshold once per maintenance
+// interval" - the threshold of the records the source sent in that interval
+// (any of them if they differ; the last known one if it sent nothing).
 func (m *refSpam) maintenance() {
 	U := m.spec.Unban
 	for _, s := range m.src {
-		T := s.T
+		ts := s.curT
+		if len(ts) == 0 {
+			ts = s.prevT
+		}
 		var w []int
-		for _, c := range s.worlds {
-			a := c - T // subtract, then clamp (one reading)
-			if a < 0 {
-				a = 0
+		for T := range ts {
+			for _, c := range s.worlds {
+				a := c - T // subtract, then clamp (one reading)
+				if a < 0 {
+					a = 0
+				}
+				if a > U*T {
+					a = U * T
+				}
+				b := c // clamp, then subtract (README order)
+				if b > U*T {
+					b = U * T
+				}
+				b -= T
+				if b < 0 {
+					b = 0
+				}
+				w = append(w, a, b)
 			}
-			if a > U*T {
-				a = U * T
-			}
-			b := c // clamp, then subtract (README order)
-			if b > U*T {
-				b = U * T
-			}
-			b -= T
-			if b < 0 {
-				b = 0
-			}
-			w = append(w, a, b)
+		}
+		if len(ts) == 0 {
+			w = append(w, s.worlds...)
 		}
 		s.worlds = normWorlds(w)
+		if len(s.curT) > 0 {
+			s.prevT, s.curT = s.curT, map[int]bool{}
+		}
 		s.silentRounds++
 	}
 }
@@ -489,6 +526,8 @@ func (p *pending) explain(part string, spam bool) (sig, what string) {
 	if spam {
 		ctx := "source never banned before"
 		switch {
+		case p.severalThresholds():
+			ctx = "source whose records fall under different thresholds"
 		case p.cl.T >= 2 && p.silentAt >= U+1:
 			ctx = "source silent for unbanIterations+1 or more maintenance rounds"
 		case p.s.everSpam:
